@@ -52,7 +52,8 @@ Definition enc_event (e : event) : sx :=
   | EvExit id t called caught cnt sw exc =>
       L [A 2; of_nat id; of_nat t; of_bool called; of_bool caught; of_nat cnt; of_bool sw; of_nat exc]
   | EvCatch id t exc => L [A 3; of_nat id; of_nat t; of_nat exc]
-  | EvExt t => L [A 4; of_nat t]
+  | EvExt t n sh => L [A 4; of_nat t; of_nat n; of_bool sh]
+  | EvCancel id t => L [A 5; of_nat id; of_nat t]
   end.
 
 (* outcome of the task: 0 returned, 1 cancelled, 2 TimeoutError, 3 other exception, 8 out of fuel, 9 loop blocked *)
